@@ -7,6 +7,7 @@ from typing import List, Optional
 
 from .core import Result, finding, norm_construct
 from .model import AnalysisError, ClassInfo, FuncInfo, Repo
+from .facts import prove_ge0
 from .structure import (arg_of, attr_stores, call_name, call_target, calls_in, is_subsequence, normal_exit, path_calls, stmt_paths,
                         subscript_stores)
 
@@ -48,72 +49,72 @@ def _membership_marks(test: ast.AST) -> Optional[str]:
     return None
 
 
-def check_resume(prop: str, res: Result, fi: FuncInfo, seq_txt: str, want_mark: str):
-    """backward resume scan: pre-check returns 0 for an unmarked first element, loop range(len-1, 0, -1) returns i+1
-    at the first marked element, fall-through result <= 1"""
-    fn = fi.node
+def check_resume(prop: str, res: Result, fi: FuncInfo, seq_txt: str, want_mark: str, repo: Optional[Repo] = None):
+    """resume scan, decided semantically (hexlint/resume.py): with the handled elements forming a prefix [0, m) of the n elements, every
+    return case of the scan (delegations and predicate helpers inlined, the scan loop replaced by its closed form) must entail
+    result == m (conversion: nothing twice, nothing skipped) resp. 0 <= result <= m (readings: nothing skipped); the 'handled' mark must be
+    the key / tag, not the stored value.  Returns the ScanAnalysis (or None when the scan cannot be modelled -> analysis error)."""
+    from .resume import Unknown, analyse_scan, case_text, feasible, M, N
+
     rule = "R-RESUME"
+    fn = fi.node
     if seq_txt == "<param0>":
         seq_txt = next((a.arg for a in fn.args.args if a.arg not in ("self", "cls")), "candles")
-    loops = [n for n in fn.body if isinstance(n, ast.For)]
-    rets = [n for n in fn.body if isinstance(n, ast.Return)]
-    pre = [n for n in fn.body if isinstance(n, ast.If)]
-    shape_ok = len(loops) == 1 and len(rets) == 1 and fn.body[-1] is rets[0] and len(pre) >= 1
-    extra_stmts = [n for n in fn.body if not isinstance(n, (ast.For, ast.Return, ast.If, ast.Expr))]
-    early = [n for n in pre[1:] if any(isinstance(x, ast.Return) for x in ast.walk(n))]
-    if not shape_ok or extra_stmts or early:
+    if repo is None:
+        raise AnalysisError("check_resume needs the repository model")
+    try:
+        sa = analyse_scan(repo, fi, seq_txt)
+    except Unknown as e:
         # an unmodelled shape is not evidence of a violation: fail closed as analysis error, never as a pass
-        res.errors.append(f"{fi.where} {fi.qualname}: resume scan is not the recognised 'pre-check; backward scan; fall-through' shape; the rule cannot decide it")
-        return
-    loop = loops[0]
-    # 1. loop range
-    it = loop.iter
-    ok_range = (
-        isinstance(it, ast.Call)
-        and call_name(it) == "range"
-        and len(it.args) == 3
-        and _is_len_minus_1(it.args[0], seq_txt)
-        and _const(it.args[1]) == 0
-        and isinstance(it.args[2], ast.UnaryOp)
-        and _const(it.args[2].operand) == 1
-    )
-    if ok_range:
-        res.ok(rule, {"site": f"{fi.where} {norm_construct(it)}", "covers": "positions n-1 .. 1, newest first"}, nontrivial=f"{fi.qualname}:range")
-    else:
-        res.fail(rule, finding(prop, rule, fi, it, "resume scan does not cover positions n-1 .. 1 from the newest candle backwards"))
-    # 2. loop body returns loopvar + 1 at the first marked element
-    lv = loop.target.id if isinstance(loop.target, ast.Name) else None
-    body_rets = [n for n in ast.walk(loop) if isinstance(n, ast.Return)]
-    good = len(body_rets) == 1 and isinstance(body_rets[0].value, ast.BinOp) and isinstance(body_rets[0].value.op, ast.Add) and ast.unparse(body_rets[0].value.left) == lv and _const(body_rets[0].value.right) == 1
-    if good:
-        res.ok(rule, {"site": f"{fi.where} {norm_construct(body_rets[0])}", "why": "resume right after the newest marked position"})
-    else:
-        res.fail(rule, finding(prop, rule, fi, body_rets[0] if body_rets else loop, "scan does not resume at (marked position + 1)"))
-    tests = [n.test for n in ast.walk(loop) if isinstance(n, ast.If)]
-    for t in tests:
-        k = _membership_marks(t)
-        if k == want_mark:
-            res.ok(rule, {"site": f"{fi.where} {norm_construct(t)[:100]}", "mark": k}, nontrivial=f"{fi.qualname}:mark")
+        res.errors.append(f"{fi.where} {fi.qualname}: resume scan cannot be modelled ({e}); the rule cannot decide it")
+        return None
+    exact = want_mark == "tag"
+    n_live = 0
+    for c in sa.cases:
+        facts = tuple(f for f in c.facts if f is not True)
+        if any(f is False for f in facts) or not feasible(facts):
+            continue
+        n_live += 1
+        txt = case_text(c)
+        if c.result is None:
+            res.fail(rule, finding(prop, rule, fi, c.node, f"resume scan case {txt}: the resume position is not a position derived from the scan", construct=f"resume case {txt}"[:190]))
+            continue
+        base = [M, N - M]
+        no_skip = prove_ge0(M - c.result, facts, base) and prove_ge0(c.result, facts, base)
+        no_redo = prove_ge0(c.result - M, facts, base)
+        if not no_skip:
+            res.fail(rule, finding(prop, rule, fi, c.node, f"resume scan case {txt}: with m elements already handled the scan can resume after position m: unhandled elements are skipped for good", construct=f"resume case {txt}"[:190]))
+        elif exact and not no_redo:
+            res.fail(rule, finding(prop, rule, fi, c.node, f"resume scan case {txt}: the scan can resume before position m: an element that was already converted is converted again", construct=f"resume case {txt}"[:190]))
         else:
-            res.fail(rule, finding(prop, rule, fi, t, f"'already done' mark must be a {want_mark} test; a value/truthiness test treats stored None/0 readings as not done and re-scans or recomputes them"))
-    # 3. fall-through
-    ft = _const(rets[0].value)
-    if isinstance(ft, int) and not isinstance(ft, bool) and ft <= 1:
-        res.ok(rule, {"site": f"{fi.where} return {ft}", "why": "fall-through resumes at position <= 1 (only position 0 can be marked): re-doing work is sound, skipping is not"}, nontrivial=f"{fi.qualname}:fallthrough")
-    else:
-        res.fail(rule, finding(prop, rule, fi, rets[0], "when only position 0 is marked the scan falls through to a position > 1: later elements are never processed"))
-    # 4. pre-check returns 0
-    pre_ret = [n for n in ast.walk(pre[0]) if isinstance(n, ast.Return)]
-    if pre_ret and _const(pre_ret[0].value) == 0:
-        k = _membership_marks(pre[0].test)
-        res.ok(rule, {"site": f"{fi.where} {norm_construct(pre[0].test)[:100]}", "why": "an empty list or an unmarked first element restarts at 0"})
-        if want_mark == "membership" and k != "membership":
-            # the len()==0 test is a Compare too; only complain when a non-membership test on readings appears
-            bad = [n for n in ast.walk(pre[0].test) if isinstance(n, ast.Call) and call_name(n) in ("get", "read_candle", "reading", "reading_by_candle")]
-            for b in bad:
-                res.fail(rule, finding(prop, rule, fi, b, "pre-check of the resume scan tests the stored value instead of the key"))
-    else:
-        res.fail(rule, finding(prop, rule, fi, pre[0], "pre-check does not return 0 for an unmarked first element"))
+            res.ok(rule, {"site": fi.where, "case": txt, "proved": "result == m" if no_redo else "0 <= result <= m"}, nontrivial=f"{fi.qualname}:{txt}"[:120])
+    if n_live == 0:
+        res.errors.append(f"{fi.where} {fi.qualname}: resume scan has no feasible return case")
+    want = "membership" if want_mark == "membership" else "tag"
+    for node, kind in sa.marks:
+        if kind == want:
+            res.ok(rule, {"site": f"{fi.where} {norm_construct(node)[:100]}", "mark": kind}, nontrivial=f"{fi.qualname}:mark")
+        else:
+            res.fail(rule, finding(prop, rule, fi, node, f"the 'already done' mark is a {kind} test; it must be a {want} test on the store the readings are written to (a value/truthiness test treats stored None/0 readings as not done; a test on the wrong store never finds the mark)"))
+    if not sa.marks:
+        res.errors.append(f"{fi.where} {fi.qualname}: resume scan never tests the 'already done' mark")
+    return sa
+
+
+def resume_rework_bounded(sa, want_exact=False):
+    """for C07: every feasible case resumes at m or m-1 (constant re-work) and the scan runs newest-first"""
+    from .poly import ONE as ONE_
+    from .resume import feasible, M, N
+
+    bad = []
+    for c in sa.cases:
+        facts = tuple(f for f in c.facts if f is not True)
+        if any(f is False for f in facts) or not feasible(facts) or c.result is None:
+            continue
+        if not prove_ge0(c.result - M + ONE_, facts, [M, N - M]):
+            bad.append(c)
+    asc = [n for n, d in sa.loops if d == "ascending"]
+    return bad, asc
 
 
 def check_calculate_driver(prop: str, res: Result, repo: Repo, want=("R-SKIP", "R-ROUND", "R-SWEEP", "R-SUBS"), sweep_mode="exact"):
